@@ -184,14 +184,15 @@ def discharge_text(text: str, want: list[str], z3_ms: int | None = None, cvc5_ms
 			return Result('proved', 'z3', dt)
 		if v == 'sat':
 			return Result('refuted', 'z3', dt, model, detail)
-	v2, dt2, detail2 = _cvc5_run(text, cvc5_ms)
+	# the 1.0.3 command-line build first (hard process time limit, strong on strings), then the 1.4.0 binding
+	v2, dt2, detail2 = _cvc5_cli_run(text, cvc5_ms)
 	if v2 == 'unsat':
-		return Result('proved', 'cvc5', dt + dt2, tried=['z3:' + v])
+		return Result('proved', 'cvc5-cli', dt + dt2, tried=['z3:' + v])
 	if v2 != 'sat':
-		v4, dt4, detail4 = _cvc5_cli_run(text, cvc5_ms)
+		v4, dt4, detail4 = _cvc5_run(text, cvc5_ms)
 		dt2 += dt4
 		if v4 == 'unsat':
-			return Result('proved', 'cvc5-cli', dt + dt2, tried=['z3:' + v, 'cvc5:' + v2])
+			return Result('proved', 'cvc5', dt + dt2, tried=['z3:' + v, 'cvc5-cli:' + v2])
 		if v4 == 'sat':
 			v2 = 'sat'
 	v3, dt3, model, detail3 = _z3_run(text, want, z3_ms)
